@@ -31,11 +31,13 @@ def _adds(f, names=("add",), into_nested=False):
 def _loop_vars(node):
     """{var: iter_text} for enclosing for-loops (tuple targets flattened)"""
     out = {}
+    fn = W.enclosing_function(node)
     for a in ancestors(node):
         if isinstance(a, (ast.For, ast.comprehension)):
+            it = W.citer(fn, a) if fn is not None and isinstance(a, ast.For) else norm(a.iter)
             for t in ast.walk(a.target):
                 if isinstance(t, ast.Name):
-                    out.setdefault(t.id, norm(a.iter))
+                    out.setdefault(t.id, it)
         if isinstance(a, (ast.FunctionDef, ast.AsyncFunctionDef)):
             break
     return out
@@ -306,7 +308,7 @@ def rule_factor_link(P):
         li = _loop_of(c, tgt)
         ok = False
         if lf is not None and li is not None and isinstance(lf.target, ast.Tuple) and isinstance(li.target, ast.Tuple):
-            ok = norm(lf.iter) == left and norm(li.iter) == right_it and norm(lf.target.elts[0]) == src and norm(li.target.elts[0]) == tgt \
+            ok = W.citer(f.node, lf) == left and W.citer(f.node, li) == right_it and norm(lf.target.elts[0]) == src and norm(li.target.elts[0]) == tgt \
                 and num == sorted([norm(lf.target.elts[1]), norm(li.target.elts[1])]) and not den
         if ok:
             inner_guards = [ft for ft in W.guard_facts(c) if ft.kind in ("if", "else", "early-exit", "early-exit-else") and W._within(ft.origin, lf)]
@@ -369,9 +371,10 @@ def rule_factor_det(P):
                    "(W⁻¹·R[p]) and the arc carries W; the final weight of a subset state sums Q[q]·stop[q]",
                    "subset construction conserves weight")
     f = P.func("wfsa/base.py::WFSA.determinize")
-    pa = P.funcs.get("wfsa/base.py::WFSA.determinize._powerarcs")
-    if pa is None:
-        raise AnalysisError("wfsa/base.py::WFSA.determinize._powerarcs not found")
+    gens = [g for g in P.funcs.values() if g.outer is f and any(isinstance(n, ast.Yield) for n in walk_live(g.node))]
+    if len(gens) != 1:
+        raise AnalysisError("wfsa/base.py::WFSA.determinize: nested generator of successor subsets not found")
+    pa = gens[0]
     r.looked_at(f, pa)
     acc = [n for n in walk_live(pa.node) if isinstance(n, ast.AugAssign) and isinstance(n.op, ast.Add) and isinstance(n.target, ast.Subscript)]
     ok = len(acc) == 1
@@ -399,8 +402,12 @@ def rule_factor_det(P):
             comp = next((x for x in ast.walk(resid) if isinstance(x, ast.DictComp)), None)
             if comp is not None and isinstance(wd, ast.Call) and W.call_name(wd) == "sum":
                 num, den = W.factors(comp.value)
-                rset = norm(comp.generators[0].iter)
-                ok = den == [norm(wsum)] and num == [f"{rset}[{norm(comp.key)}]"] and norm(wd.args[0]) == f"{rset}.values()"
+                g0 = comp.generators[0]
+                rset = norm(_strip_items(g0.iter))
+                if isinstance(g0.target, ast.Tuple) and len(g0.target.elts) == 2:
+                    # {p: v / W for p, v in R.items()}
+                    num = [x if x != norm(g0.target.elts[1]) else f"{rset}[{norm(g0.target.elts[0])}]" for x in num]
+                ok = den == [norm(wsum)] and num == [f"{rset}[{norm(comp.key)}]"] and W.cnorm(pa.node, wd.args[0], y) == W.cnorm(pa.node, ast.parse(f"{rset}.values()", mode="eval").body, y)
                 slots = dict(residual=norm(comp.value), arc_weight=norm(wsum), W=norm(wd))
         r.add(pa, y, ok, "" if ok else f"`{first_line(y)}`: residuals must be R[p]/W with W = sum(R.values()) and the arc weight W", slots=slots)
     addF = _adds(f, names=("add_F",))
@@ -415,6 +422,12 @@ def rule_factor_det(P):
     r.add(f, addF[0] if addF else f.node, ok, "" if ok else "final weight of a subset state must sum Q[q]·stop[q] over q ∈ Q")
     r.min_instances = 3
     return r
+
+
+def _strip_items(e):
+    if isinstance(e, ast.Call) and isinstance(e.func, ast.Attribute) and e.func.attr in ("items", "keys") and not e.args:
+        return e.func.value
+    return e
 
 
 def rule_factor_bytes(P):
@@ -473,7 +486,7 @@ def rule_factor_locnorm(P):
     c = sites[0]
     lv = _loop_vars(c)
     rv = next((v for v, it in lv.items() if it == g), None)
-    num, den = W.factors(c.args[0])
+    num, den = W.cfactors(f.node, c.args[0], c)
     ok = rv is not None and num == sorted([f"{rv}.w", f"{z}.product({rv}.body)"]) and den == [f"{z}[{rv}.head]"] \
         and norm(c.args[1]) == f"{rv}.head" and len(c.args) == 3 and isinstance(c.args[2], ast.Starred) and norm(c.args[2].value) == f"{rv}.body"
     r.add(f, c, ok, "" if ok else f"`{first_line(c)}`: factors {num} / {den}", slots=dict(num=num, den=den))
@@ -525,16 +538,17 @@ def rule_accum_delta(P):
     k, y = (norm(e) for e in inner.target.elts)
     ok_init = len(inits) == 1 and norm(inits[0].value).endswith(".one") and not W._within(inits[0], inner) and len(W.enclosing_loops(inits[0])) == 1
     r.add(f, inits[0] if inits else f.node, ok_init, "" if ok_init else f"{dname} must be (re)initialised to R.one once per rule, outside the position loop")
-    ok_aug = len(augs) == 1 and isinstance(augs[0].op, ast.Mult) and norm(augs[0].value) == f"{u}[{y}]" and inner.body[-1] is augs[0]
+    ok_aug = len(augs) == 1 and isinstance(augs[0].op, ast.Mult) and W.cnorm(f.node, augs[0].value, augs[0]) == W.cnorm(f.node, ast.parse(f"{u}[{y}]", mode="eval").body, augs[0]) \
+        and inner.body[-1] is augs[0]
     r.add(f, augs[0] if augs else (inits[-1] if inits else f.node), ok_aug,
           "" if ok_aug else f"the only update of {dname} must be `{dname} *= {u}[{y}]` as the last statement of the position loop: "
                             f"with two nullable symbols before the differentiated one the factor is their product",
           slots=dict(updates=[first_line(x) for x in upd]))
     for c in [c for c in _adds(f) if not _verbatim_copy(c) and len(c.args) >= 2]:
-        num, den = W.factors(c.args[0])
+        num, den = W.cfactors(f.node, c.args[0], c)
         rv = next((v for v, it in _loop_vars(c).items() if it == "self"), "r")
         st = [a.value for a in c.args if isinstance(a, ast.Starred)]
-        ok = num == sorted([dname, f"{rv}.w"]) and not den and len(st) == 1 and norm(st[0]) == f"{rv}.body[{k} + 1:]"
+        ok = num == sorted([dname, f"{rv}.w"]) and not den and len(st) == 1 and W.cnorm(f.node, st[0], c) == f"{rv}.body[{k} + 1:]"
         r.add(f, c, ok, "" if ok else f"`{first_line(c)}`: weight must be {dname}·{rv}.w and the body the suffix after position {k}",
               slots=dict(factors=num, suffix=norm(st[0]) if st else None))
     r.min_instances = 4
@@ -623,27 +637,26 @@ def rule_factor_nullpush(P):
         r.min_instances = 1
         return r
     B = lp.target.id if isinstance(lp.target, ast.Name) else None
-    inner = [n for n in walk_live(lp) if isinstance(n, ast.For) and n is not lp and isinstance(n.iter, ast.Call) and W.call_name(n.iter) == "enumerate"
-             and n.iter.args and W.is_name(n.iter.args[0], B)]
-    ok = len(inner) == 1 and isinstance(inner[0].target, ast.Tuple) and len(inner[0].target.elts) == 2
-    if not ok:
-        r.add(f, lp, False, "the per-position loop `for i, b in enumerate(B)` was not found", construct="_push_null_weights: per-position loop")
-        r.min_instances = 2
-        return r
-    i, b = (norm(e) for e in inner[0].target.elts)
-    muls = [n for n in walk_live(inner[0]) if isinstance(n, ast.AugAssign) and isinstance(n.op, ast.Mult)]
-    apps = [n for n in walk_live(inner[0]) if isinstance(n, ast.Call) and W.call_name(n) == "append"]
-    okm = len(muls) == 1 and norm(muls[0].value) == f"{nw}[{rv}.body[{i}]]" and any(ft.pol and norm(ft.test) == b for ft in W.guard_facts(muls[0]))
-    oka = len(apps) == 1 and isinstance(apps[0].args[0], ast.Call) and norm(apps[0].args[0].args[0]) == f"{rv}.body[{i}]" \
-        and any((not ft.pol) and norm(ft.test) == b for ft in W.guard_facts(apps[0]))
-    r.add(f, muls[0] if muls else inner[0], okm, "" if okm else "a dropped position must multiply the weight by the null weight of the symbol at that position")
-    r.add(f, apps[0] if apps else inner[0], oka, "" if oka else "a kept position must append the (renamed) symbol at that position")
+    muls = [n for n in walk_live(lp) if isinstance(n, ast.AugAssign) and isinstance(n.op, ast.Mult)]
+    apps = [n for n in walk_live(lp) if isinstance(n, ast.Call) and W.call_name(n) == "append"]
+    import re as _re
+    okm = oka = False
+    idx = None
+    if len(muls) == 1:
+        m = _re.match(rf"^{_re.escape(nw)}\[{_re.escape(rv)}\.body\[(.+)\]\]$", W.cnorm(f.node, muls[0].value, muls[0]))
+        if m:
+            idx = m.group(1)
+            okm = f"{B}[{idx}]" in W.cfacts(f.node, muls[0])
+    if len(apps) == 1 and idx is not None and isinstance(apps[0].args[0], ast.Call) and len(apps[0].args[0].args) == 1:
+        oka = W.cnorm(f.node, apps[0].args[0].args[0], apps[0]) == f"{rv}.body[{idx}]" and f"not {B}[{idx}]" in W.cfacts(f.node, apps[0])
+    r.add(f, muls[0] if muls else lp, okm, "" if okm else "a dropped position must multiply the weight by the null weight of the symbol at that position")
+    r.add(f, apps[0] if apps else lp, oka, "" if oka else "a kept position must append the (renamed) symbol at that same position")
+    inner = [a for a in (ancestors(muls[0]) if muls else []) if isinstance(a, ast.For) and a is not lp and W._within(a, lp)]
     # v starts from r.w
     vname = norm(muls[0].target) if muls else "v"
-    inits = [(st, val) for st, val in W.assignments_to(f.node, vname)]
     init_ok = False
     for n in walk_live(lp):
-        if isinstance(n, ast.Assign) and W._within(n, lp) and not W._within(n, inner[0]):
+        if isinstance(n, ast.Assign) and W._within(n, lp) and not (inner and W._within(n, inner[0])):
             t = n.targets[0]
             if isinstance(t, ast.Tuple) and isinstance(n.value, ast.Tuple):
                 for a, bb in zip(t.elts, n.value.elts):
